@@ -39,7 +39,8 @@ Fixpoint replay (s : ipam) (i : N) (h : list ostep) : option N :=
   | [] => None
   | (o, r, ips, d) :: rest =>
       let '(s', r', ips') := step s o in
-      if bool_decide (r' = r) && list_eqb N.eqb ips' ips && match d with Some d => dump_ok s' d | None => true end
+      (* the informer handlers' errors are only logged: their result class is not observable *)
+      if (match o with OWatch _ => true | _ => bool_decide (r' = r) end) && list_eqb N.eqb ips' ips && match d with Some d => dump_ok s' d | None => true end
       then replay s' (i + 1) rest
       else Some i
   end.
